@@ -53,9 +53,7 @@ K void k_zmm(REP* z, REP* mn, REP* mx) { *z = From::zero().count(); *mn = From::
 #if REPF
 K REP k_conv(REP c) { To t = From{c}; return t.count(); }  // implicit conversion: every period pair when Rep is floating point
 #endif
-// NO_ROUND: set by spec.py for period pairs whose common period has a denominator d with d*d > INTMAX (nano x 5/7): round()
-// compares two durations of the common type, common_type<CT, CT> calls etl::lcm(d, d) = (d*d)/gcd and does not compile
-#if !REPF && !defined(NO_ROUND)
+#if !REPF
 K REP k_round(REP c) { return etl::chrono::round<To>(From{c}).count(); }
 #endif
 #if !REPF
@@ -86,7 +84,7 @@ K void k_tp_mm(REP* mn, REP* mx) { *mn = TP::min().time_since_epoch().count(); *
 K REP k_tp_cast(REP t) { return etl::chrono::time_point_cast<To>(TP{From{t}}).time_since_epoch().count(); }
 K REP k_tp_floor(REP t) { return etl::chrono::floor<To>(TP{From{t}}).time_since_epoch().count(); }
 K REP k_tp_ceil(REP t) { return etl::chrono::ceil<To>(TP{From{t}}).time_since_epoch().count(); }
-#if !REPF && !defined(NO_ROUND)
+#if !REPF
 K REP k_tp_round(REP t) { return etl::chrono::round<To>(TP{From{t}}).time_since_epoch().count(); }
 #endif
 K unsigned k_tp_cmp(REP a, REP b)
